@@ -31,9 +31,18 @@ type Model struct {
 	Init                       func(e, v any)
 	Encode                     func(e, v any) enc.Wire
 	Parse                      func(r enc.ParseReader, ic bool) (any, error)
-	PubEncode                  func(v any) enc.Wire
-	PubBytes                   func(v any) []byte
-	PubParse                   func(r enc.ParseReader, ic bool) (any, error)
+	// the exported EncodeInto (memory supplied by the caller): exactly one of the two is set when
+	// the generator emitted the method
+	EncodeIntoBuf  func(e, v any, buf []byte)
+	EncodeIntoWire func(e, v any, w enc.Wire)
+	// a parsing context object the caller keeps: Init() + Parse() per value
+	NewCtx   func() any
+	CtxInit  func(c any)
+	CtxParse func(c any, r enc.ParseReader, ic bool) (any, error)
+
+	PubEncode func(v any) enc.Wire
+	PubBytes  func(v any) []byte
+	PubParse  func(r enc.ParseReader, ic bool) (any, error)
 
 	// derived
 	vf       []*valField // TLV value fields in definition order
